@@ -212,7 +212,17 @@ pub fn pal_float(r: &mut Rng) -> f64 {
         11 => 1.0e300,
         12 => 1700000000.0,
         13 => 1700000000.25,
-        14 => f64::from_bits(r.next()),
+        14 => {
+            // NaN payloads are not part of the data model (all NaNs are one value) and the CBOR layer
+            // keeps them in wider encodings, so generated values use the canonical NaN only; payload
+            // NaNs are exercised as raw bytes in C01 / C07
+            let f = f64::from_bits(r.next());
+            if f.is_nan() {
+                f64::NAN
+            } else {
+                f
+            }
+        }
         _ => (r.range(-100000, 100000) as f64) / 8.0,
     }
 }
